@@ -410,6 +410,9 @@ func (p *Pollard) Verify(delHashes []Hash, proof Proof, remember bool) error {
 			len(proof.Targets), len(delHashes))
 	}
 
+	if err := checkNoEmptyHashes(delHashes, proof); err != nil {
+		return err
+	}
 	_, rootCandidates, err := calculateHashes(p.NumLeaves, delHashes, proof)
 	if err != nil {
 		return err
@@ -642,6 +645,23 @@ func calculateHashes(numLeaves uint64, delHashes []Hash, proof Proof) (hashAndPo
 	// to the roots.
 	nextProves = mergeSortedHashAndPos(nextProves, toProve)
 	return nextProves, calculatedRootHashes, nil
+}
+
+// checkNoEmptyHashes returns an error if any of the hashes to verify or any of the
+// proof hashes is the empty hash. The empty hash stands for "nothing here" when
+// calculating the hashes so it can never be a part of something that is being proven.
+func checkNoEmptyHashes(delHashes []Hash, proof Proof) error {
+	for _, hash := range delHashes {
+		if hash == empty {
+			return fmt.Errorf("invalid proof. Empty hash given as a target hash")
+		}
+	}
+	for _, hash := range proof.Proof {
+		if hash == empty {
+			return fmt.Errorf("invalid proof. Empty hash given as a proof hash")
+		}
+	}
+	return nil
 }
 
 func mergeSortedSlicesFunc[E any](a, b []E, cmp func(E, E) int) (c []E) {
